@@ -144,7 +144,7 @@ var props = map[string]propCfg{
 	"C09": {Quick: tc(30000, 200, 60), Thorough: tc(300000, 500, 900)},
 	"C10": {Quick: tc(15000, 100, 120), Thorough: tc(300000, 100, 1200), Race: true},
 	"C11": {Quick: tc(40000, 200, 60), Thorough: tc(300000, 300, 1200)},
-	"C12": {Quick: tcw(102, 1, 150, 150), Thorough: tcw(204, 1, 3000, 1500)},
+	"C12": {Quick: tcw(119, 1, 150, 150), Thorough: tcw(238, 1, 3000, 1500)},
 	"C13": {Quick: tc(4000, 50, 90), Thorough: tc(60000, 100, 900), Race: true},
 	"C14": {Quick: tc(20000, 200, 60), Thorough: tc(200000, 500, 900)},
 	"C15": {Quick: tc(4000, 100, 45), Thorough: tc(40000, 100, 900), Race: true},
